@@ -72,7 +72,7 @@ def match_known(known, failure, detail):
         env = dict(model=failure['model'], q=failure['q'], obligation=failure['obligation'],
                    detail=detail, m=failure['model'])
         try:
-            if eval(k['signature'], {'__builtins__': {}}, env):
+            if eval(k['signature'], {'__builtins__': {}, 'str': str, 'len': len, 'any': any, 'all': all, 'int': int}, env):
                 return k
         except Exception:
             continue
